@@ -1,4 +1,5 @@
 import QuantemModel.Lemmas.Radon
+import QuantemModel.Lemmas.RadonLinear
 /-!
 C07 — the torch Radon transform / filtered back-projection (Model/Radon.lean: `radonTorch*`,
 `fourierFilterTorch`, `iradonTorch`) is the same real function as the scikit-image reference
@@ -129,15 +130,39 @@ theorem radon_sk_linear (f g : Int → Int → ℝ) (a b : ℝ) (N : Nat) (θ : 
       = a * radonSkAt f N θ x + b * radonSkAt g N θ x :=
   radonSkAt_linear f g a b N θ x
 
-/-
-Full statement (not proved here): `iradonTorch (a•s₁ + b•s₂) = a•iradonTorch s₁ + b•iradonTorch s₂`
-for sinograms of equal shape.  Missing: linearity of the filtering step
-`real(ifft(fft(pad row) * filter))` on lists (DFT linearity); it is measured on the
-implementation by the harness (iradon linearity ≤ 1e-6 relative).
--/
-/-- **iradon_linear_partial**: the back-projection (interpolation + accumulation over every
-angle set, every pixel) is linear in the filtered rows, for the torch interpolant … -/
-theorem iradon_linear_partial (D : Nat) (l : List ((Int → ℝ) × (Int → ℝ) × ℝ)) (a b : ℝ) (radius r c : Nat) :
+/-- **filter_step_linear**: the FFT filtering step `real(ifft(fft(pad row) * filter))[:N]` is
+linear on detector rows of equal length, for every filter list and every padded size. -/
+theorem filter_step_linear (filt : List ℝ) (P N : Nat) (a b : ℝ) (x y : List ℝ) (h : x.length = y.length) :
+    filterRow filt P N (linRow a b x y) = linRow a b (filterRow filt P N x) (filterRow filt P N y) :=
+  filterRow_linear filt P N a b x y h
+
+/-- **iradon_linear** (full): `iradonTorch (a•s₁ + b•s₂) = a•iradonTorch s₁ + b•iradonTorch s₂`
+for sinograms of equal shape — circle-to-square padding, FFT filtering, interpolation,
+accumulation, mask and scaling — for every shape, angle set (given or default), filter name
+and circle flag. -/
+theorem iradon_linear (a b : ℝ) (s1 s2 : List (List ℝ)) (h : SameShape s1 s2)
+    (thetas : Option (List ℝ)) (name : FilterName) (circle : Bool) :
+    iradonTorch (linRows a b s1 s2) thetas name circle
+      = linRows a b (iradonTorch s1 thetas name circle) (iradonTorch s2 thetas name circle) :=
+  iradonTorch_linear a b s1 s2 h thetas name circle
+
+/-- the reference is linear too. -/
+theorem iradon_sk_linear (a b : ℝ) (s1 s2 : List (List ℝ)) (h : SameShape s1 s2)
+    (thetas : Option (List ℝ)) (name : FilterName) (circle : Bool) :
+    iradonSk (linRows a b s1 s2) thetas name circle
+      = linRows a b (iradonSk s1 thetas name circle) (iradonSk s2 thetas name circle) :=
+  iradonSk_linear a b s1 s2 h thetas name circle
+
+example : iradonTorch (linRows 2 3 [[1, 2], [3, 4]] [[0, 1], [1, 0]]) none .hann true
+    = linRows 2 3 (iradonTorch [[1, 2], [3, 4]] none .hann true) (iradonTorch [[0, 1], [1, 0]] none .hann true) :=
+  by
+  apply iradon_linear
+  exact List.Forall₂.cons (by simp) (List.Forall₂.cons (by simp) List.Forall₂.nil)
+
+/-- **backprojection_linear** (formerly `iradon_linear_partial`; the accessor-level core of
+`iradon_linear`): interpolation + accumulation over every angle set and every pixel is linear
+in the filtered rows, for the torch interpolant … -/
+theorem backprojection_linear (D : Nat) (l : List ((Int → ℝ) × (Int → ℝ) × ℝ)) (a b : ℝ) (radius r c : Nat) :
     backprojAt (fun D v t => interpTorch D v (t + Num.ofNat (D / 2))) D
         (l.map fun q => (fun i => a * q.1 i + b * q.2.1 i, q.2.2)) radius r c
       = a * backprojAt (fun D v t => interpTorch D v (t + Num.ofNat (D / 2))) D (l.map fun q => (q.1, q.2.2)) radius r c
@@ -146,7 +171,7 @@ theorem iradon_linear_partial (D : Nat) (l : List ((Int → ℝ) × (Int → ℝ
     (fun D v w a b _ => interp_linear D v w a b _) D l a b radius r c
 
 /-- … and for the reference interpolant. -/
-theorem iradon_sk_linear_partial (D : Nat) (l : List ((Int → ℝ) × (Int → ℝ) × ℝ)) (a b : ℝ) (radius r c : Nat) :
+theorem backprojection_sk_linear (D : Nat) (l : List ((Int → ℝ) × (Int → ℝ) × ℝ)) (a b : ℝ) (radius r c : Nat) :
     backprojAt npInterp D (l.map fun q => (fun i => a * q.1 i + b * q.2.1 i, q.2.2)) radius r c
       = a * backprojAt npInterp D (l.map fun q => (q.1, q.2.2)) radius r c
         + b * backprojAt npInterp D (l.map fun q => (q.2.1, q.2.2)) radius r c :=
